@@ -128,3 +128,51 @@ package compress
 //@     invariant d.br == old(d.br) && d.value == old(d.value) && d.leadingZeros == old(d.leadingZeros) && d.trailingZeros == old(d.trailingZeros)
 //@     invariant (i == 0 && read == 0 && ghost(d.br, "rpos") == old(ghost(d.br, "rpos"))) || (i == 1 && read == 1 && ghost(d.br, "rpos") == old(ghost(d.br, "rpos")) + 1 && ghostat(ghost(d.br, "sid"), old(ghost(d.br, "rpos")), "tokv") == 1) || (i == 2 && read == 3 && ghost(d.br, "rpos") == old(ghost(d.br, "rpos")) + 2 && ghostat(ghost(d.br, "sid"), old(ghost(d.br, "rpos")), "tokv") == 1 && ghostat(ghost(d.br, "sid"), old(ghost(d.br, "rpos")) + 1, "tokv") == 1)
 //@ end
+
+// ---- timestamps: delta-of-delta encoding ------------------------------------------
+//@ ghostdecl edod int64
+//@ spec dodNBits(dod int64) int = ite(dod == 0, 0, ite(-63 <= dod && dod <= 64, 7, ite(-255 <= dod && dod <= 256, 9, ite(-2047 <= dod && dod <= 2048, 12, 32))))
+//@ spec dodHeaderV(dod int64) uint64 = ite(dod == 0, uint64(0), ite(-63 <= dod && dod <= 64, uint64(2), ite(-255 <= dod && dod <= 256, uint64(6), ite(-2047 <= dod && dod <= 2048, uint64(14), uint64(15)))))
+//@ spec dodHeaderW(dod int64) int = ite(dod == 0, 1, ite(-63 <= dod && dod <= 64, 2, ite(-255 <= dod && dod <= 256, 3, 4)))
+//@ spec encInt(i int64, n int) uint64 = maskbits(ite(i >= 0, uint64(i), uint64((int64(1) << uint64(n)) + i)), n)
+//@ spec encT(s int, p int, dod int64) bool = tokIs(s, p, dodHeaderV(dod), dodHeaderW(dod)) && implies(dod != 0, tokIs(s, p+1, encInt(dod, dodNBits(dod)), dodNBits(dod)))
+
+//@ func writeInt64Bits
+//@   props C08
+//@   requires bw != nil && nbits <= 64
+//@   modifies ghost(bw, "wpos"), ghostat(ghost(bw, "sid"), ghost(bw, "wpos"), "tokv"), ghostat(ghost(bw, "sid"), ghost(bw, "wpos"), "tokn"), bw.buffer, bw.count
+//@   ensures implies(result == nil && nbits < 63, ghost(bw, "wpos") == old(ghost(bw, "wpos")) + 1 && tokIs(ghost(bw, "sid"), old(ghost(bw, "wpos")), encInt(i, int(nbits)), int(nbits)))
+//@   ensures ghost(bw, "sid") == old(ghost(bw, "sid"))
+//@ end
+
+//@ func (*Compressor).compressTimestamp
+//@   props C08
+//@   requires c != nil && c.bw != nil && ghost(c.bw, "wpos") >= 0 && ghost(c.bw, "wpos") <= 1000000000
+//@   ensures [state] implies(result1 == nil, c.t == int32(t) && c.tDelta == int32(t) - old(c.t))
+//@   ensures [tokens] implies(result1 == nil, encT(ghost(c.bw, "sid"), old(ghost(c.bw, "wpos")), int64(int32(t) - old(c.t)) - int64(old(c.tDelta))))
+//@   ensures [advance] implies(result1 == nil, ghost(c.bw, "wpos") == old(ghost(c.bw, "wpos")) + ite(int64(int32(t) - old(c.t)) - int64(old(c.tDelta)) == 0, 1, 2))
+//@   ensures [same-stream] ghost(c.bw, "sid") == old(ghost(c.bw, "sid")) && c.bw == old(c.bw)
+//@   modifies c.t, c.tDelta, c.bw.buffer, c.bw.count, ghost(c.bw, "wpos"), ghostseq("tokv"), ghostseq("tokn")
+//@ end
+
+// Reading the 1..4 header bits one by one consumes the header token written
+// with writeBits(h, w) most-significant bit first: a bit-level fact of the
+// assumed bit I/O layer.
+//@ func (*Decompressor).dodTimestampBitN
+//@   assumed
+//@   requires d != nil && d.br != nil
+//@   requires tokIs(ghost(d.br, "sid"), ghost(d.br, "rpos"), dodHeaderV(ghost(d, "edod")), dodHeaderW(ghost(d, "edod")))
+//@   modifies ghost(d.br, "rpos"), d.br.count
+//@   ensures implies(result1 == nil, int(result0) == dodNBits(ghost(d, "edod")) && ghost(d.br, "rpos") == old(ghost(d.br, "rpos")) + 1)
+//@ end
+
+//@ func (*Decompressor).decompressTimestamp
+//@   props C08
+//@   requires d != nil && d.br != nil && ghost(d.br, "rpos") >= 0 && ghost(d.br, "rpos") <= 1000000000
+//@   requires encT(ghost(d.br, "sid"), ghost(d.br, "rpos"), ghost(d, "edod")) && ghost(d, "edod") != 4294967295 && -4294967295 <= ghost(d, "edod") && ghost(d, "edod") <= 4294967295
+//@   ensures [delta] implies(result1 == nil, d.delta == old(d.delta) + uint32(ghost(d, "edod")))
+//@   ensures [time] implies(result1 == nil, d.t == old(d.t) + d.delta && result0 == d.t)
+//@   ensures [consumed] implies(result1 == nil, ghost(d.br, "rpos") == old(ghost(d.br, "rpos")) + ite(ghost(d, "edod") == 0, 1, 2))
+//@   ensures [same-stream] ghost(d.br, "sid") == old(ghost(d.br, "sid")) && d.br == old(d.br)
+//@   modifies d.t, d.delta, d.br.count, ghost(d.br, "rpos")
+//@ end
